@@ -79,7 +79,8 @@ type Event struct {
 	P      *absmap.Sn `json:"p,omitempty"`
 	Hex    string     `json:"hex,omitempty"`
 	N      int        `json:"n,omitempty"`
-	Pat    string     `json:"pat,omitempty"` // gate: substring of a Debug format of the client
+	Midref string     `json:"midref,omitempty"` // gw: use the message ID the client chose for the exchange of this call
+	Pat    string     `json:"pat,omitempty"`    // gate: substring of a Debug format of the client
 	Until  string     `json:"until,omitempty"`
 }
 
@@ -688,6 +689,7 @@ func runScenario(sc Scenario, emit func(Line), progress func(int), park func()) 
 		}()
 	}
 
+	callMid := map[string]int{}
 	for i, e := range sc.Events {
 		progress(i)
 		heartbeat()
@@ -710,10 +712,20 @@ func runScenario(sc Scenario, emit func(Line), progress func(int), park func()) 
 			}
 			startAPI(e)
 			synctest.Wait()
-			emit2(snapshot(ev))
+			l := snapshot(ev)
+			for _, p := range l.Out {
+				if p.T == "REGISTER" || p.T == "SUBSCRIBE" || p.T == "UNSUBSCRIBE" || p.T == "PUBLISH" {
+					callMid[e.Call] = p.Mid // which ID the client allocates is its own choice
+					break
+				}
+			}
+			emit2(l)
 		case "gw", "gwraw":
 			var d []byte
 			if e.E == "gw" {
+				if m, ok := callMid[e.Midref]; ok && e.Midref != "" {
+					e.P.Mid = m
+				}
 				d = snref.Encode(absmap.SnToPkt(*e.P, sc.Seed))
 			} else {
 				d, _ = hex.DecodeString(e.Hex)
@@ -746,6 +758,9 @@ func runScenario(sc Scenario, emit func(Line), progress func(int), park func()) 
 			gt.waiting = 0
 			gt.mu.Unlock()
 		case "gwrace":
+			if m, ok := callMid[e.Midref]; ok && e.Midref != "" {
+				e.P.Mid = m
+			}
 			// Inject a packet while a goroutine is parked at the gate, give the
 			// receive loop the chance to handle it (until the client state is
 			// e.Until or a spin bound is reached: with correct locking the
